@@ -53,7 +53,8 @@ class LoopMarker:
 
 
 class InvLoop:
-    def __init__(self, func, target, iter_text, modifies, havoc, inv=None, locals=(), lockstep=None, body_has=None, allow_return=False):
+    def __init__(self, func, target, iter_text, modifies, havoc, inv=None, locals=(), lockstep=None, body_has=None, allow_return=False,
+                 trace_check=None, indexed_havoc=False):
         self.func = func
         self.target = target
         self.iter_text = iter_text
@@ -64,6 +65,13 @@ class InvLoop:
         self.lockstep = lockstep  # (list variable name, match(I, item, event) -> z3 Bool | bool)
         self.body_has = body_has  # text that must occur in the loop body (tells apart loops with the same header)
         self.allow_return = allow_return  # `return` inside the body: the function returns from the ARBITRARY iteration
+        # trace rule (C02 "circuit and tableau stay in sync"): the effect trace of ONE arbitrary iteration, taken on its own, must
+        # satisfy trace_check(I, tag, events) (which records obligations); by induction the whole loop contributes a segment that
+        # is a concatenation of checked segments, represented by ONE marker event {"name": "loop", "marker": LoopMarker}
+        self.trace_check = trace_check
+        # indexed havoc: havoc(I, env, k) may define PART of the modified state in defines-style (an explicit function of the
+        # iteration index and the entry state) and leave the rest unspecified; whatever it builds in must be proved by `inv`
+        self.indexed_havoc = indexed_havoc
 
     def matches(self, interp, node):
         return (interp.stack[-1].func_name.split(".")[-1] == self.func.split(".")[-1]
@@ -223,8 +231,12 @@ def run_invloop(interp, node, it, spec: InvLoop):
     k = path.fresh("it")
     path.assume(z3.And(k >= 0, k < N))
     d0 = len(path.decisions)
-    hv = list(spec.havoc(interp, fr.env))
+    hv = list(spec.havoc(interp, fr.env, k) if spec.indexed_havoc else spec.havoc(interp, fr.env))
     local_list = None
+    if spec.trace_check is not None:
+        if lvar is not None:
+            raise Undecided("trace_check and lockstep on the same loop")
+        path.trace = []
     if lvar is not None:
         if not isinstance(fr.env.get(lvar), list):
             raise Undecided(f"lockstep list variable {lvar} is not a list")
@@ -265,6 +277,8 @@ def run_invloop(interp, node, it, spec: InvLoop):
             same_obj = fr.env.get(nm_) is v0
             path.engine.record(f"{tag}.frame.same-object.{nm_}", "discharged" if same_obj else "refuted", 0,
                                "" if same_obj else f"after the body `{nm_}` is bound to a different object", None)
+    if spec.trace_check is not None:
+        spec.trace_check(interp, tag, list(path.trace))
     if lvar is not None:
         same = fr.env.get(lvar) is local_list
         path.engine.record(f"{tag}.lockstep.list-object-kept", "discharged" if same else "refuted", 0,
@@ -285,7 +299,10 @@ def run_invloop(interp, node, it, spec: InvLoop):
     for nm_ in (written | tnames) - spec.modifies:
         fr.env[nm_] = Opaque("stale-after-loop", nm_)  # iteration-local: its value after the loop is not modelled
     before = dict(fr.env)
-    spec.havoc(interp, fr.env)
+    if spec.indexed_havoc:
+        spec.havoc(interp, fr.env, N)
+    else:
+        spec.havoc(interp, fr.env)
     for nm_ in spec.modifies:
         v0 = before.get(nm_)
         if not isinstance(v0, (Obj, NDArr, list, dict, SymList)) and fr.env.get(nm_) is v0 and nm_ in written:
@@ -295,6 +312,9 @@ def run_invloop(interp, node, it, spec: InvLoop):
         m = LoopMarker(f"{spec.target} in {spec.iter_text or ast.unparse(node.iter)}")
         fr.env[lvar].append(m)
         path.trace.append({"name": "loop", "args": [], "self": None, "ret": None, "marker": m})
+    if spec.trace_check is not None:
+        m = LoopMarker(f"{spec.target} in {spec.iter_text or ast.unparse(node.iter)}")
+        path.trace.append({"name": "loop", "args": [], "self": None, "ret": None, "marker": m, "checked": True})
 
 
 # ------------------------------------------------------------------------------------------ while loops
